@@ -33,7 +33,10 @@ class IRSamples:
 
     def integral_env(self, itype, coefs=("B", "C"), enabled=(True, False, True)):
         form_data = Node("FormData", reduced_coefficients=[self.coef[n] for n in coefs], coefficient_elements=[self.coef[n].f["ufl_element"].fn() for n in coefs],
-                         original_form=Node("Form", constants=_PyCall(lambda: list(self.consts))), rank=2)
+                         original_form=Node("Form", constants=_PyCall(lambda: list(self.consts)), coefficients=_PyCall(lambda: [self.coef[n] for n in ("A", "B", "C")])),
+                         # preprocessing dropped constant k0 (and, unless asked otherwise, coefficient A)
+                         preprocessed_form=Node("Form", constants=_PyCall(lambda: list(self.consts[1:])), coefficients=_PyCall(lambda: [self.coef[n] for n in coefs])),
+                         original_coefficient_positions=[("A", "B", "C").index(n) for n in coefs], rank=2)
         itg = Node("IntegralData", integral_type=itype, enabled_coefficients=list(enabled), subdomain_id=(1,))
         return {"form_data": form_data, "form_index": 0, "unique_elements": [self.elA, self.elB, self.elC], "integral_names": {}, "options": {},
                 "visualise": False, "itg_data": itg, "itg_data_index": 0, "expression_ir": {}, "ir": {}}
